@@ -33,7 +33,7 @@ KINDS = ["empty", "rand12", "trunc:60-76", "trunc:200-216", "trunc:296-305", "co
 CASES = ["%s/%s" % (m, k) for m in MODES for k in KINDS] + ["a/empty:pct", "l/rand12:pct", "l/empty:pct", "j/empty:pct", "l/corrupt:186-187:v3", "a/corrupt:186-187:v3", "a/corrupt:214-215:v40", "l/corrupt:214-215:v40"]
 QUICK = ["a/subdir-ext", "l/subdir-ext", "n/empty", "n/rand12", "l/corrupt:186-187", "l/corrupt:186-187:v3", "a/empty:pct", "l/empty:pct", "a/corrupt:0-4", "nE/trunc:48-72", "plidhex/trunc:200-216", "l/subdir-only", "bmc/corrupt:0-4", "a/corrupt:214-215:v40", "l/corrupt:214-215:v40", "a/trunc:200-216", "n/corrupt:48-52", "j/corrupt:83-84", "plid/rand12",
          "src/empty", "ahex/corrupt:0-4", "a/subdir", "l/corrupt:83-84", "lrev/trunc:60-76"]
-HARNESSES = [{"fn": "h_isolate", "cases": CASES, "quick_cases": QUICK, "timeout": {"quick": 120, "thorough": 900}}]
+HARNESSES = [{"fn": "h_isolate", "cases": CASES, "quick_cases": QUICK, "timeout": {"quick": 200, "thorough": 900}}]
 BOUNDS = {"directory": "two well-formed logs + one extra file whose sorted position (first / middle / last) is symbolic",
           "extra file": "empty; 12 symbolic bytes; truncation of a 305-byte log at a symbolic offset (3 windows); one "
                         "corrupted byte (symbolic offset in a window, symbolic value) in PH id, UH id, SRC header, SRC word "
